@@ -8,7 +8,7 @@ use crate::analysis::graph::Graph;
 use crate::analysis::graph::Node;
 use crate::analysis::interprocedural_fixpoint_generic::NodeValue;
 use crate::intermediate_representation::*;
-use std::collections::HashMap;
+use std::collections::{HashMap, HashSet};
 
 /// The context struct for the expression propagation fixpoint computation.
 ///
@@ -145,17 +145,37 @@ fn compute_expression_propagation<'a>(
     let context = Context::new(graph);
     let mut computation = create_computation(context, None);
 
+    // The CFG contains no edge from a `CallOther` instruction to its return site,
+    // although the execution continues there.
+    let callother_return_sites: HashSet<&Tid> = graph
+        .node_indices()
+        .filter_map(|node| match graph[node] {
+            Node::BlkEnd(blk, _sub) => Some(blk),
+            _ => None,
+        })
+        .flat_map(|blk| blk.term.jmps.iter())
+        .filter_map(|jmp| match &jmp.term {
+            Jmp::CallOther {
+                return_: Some(return_tid),
+                ..
+            } => Some(return_tid),
+            _ => None,
+        })
+        .collect();
+
     for node in graph.node_indices() {
-        if let Node::BlkStart(_blk, _sub) = graph[node] {
+        if let Node::BlkStart(blk, _sub) = graph[node] {
             // A start in the CFG has no incoming edges in the CFG and
             // are mostly due to cases where the control flow graph is incomplete.
             // We assume that no expressions are insertable at such starting nodes.
-            // Additionally, we initialize every function's entrypoint.
+            // Additionally, we initialize every function's entrypoint
+            // and every return site of a `CallOther` instruction.
             if graph
                 .neighbors_directed(node, petgraph::Incoming)
                 .next()
                 .is_none()
                 || graph[node].get_sub().term.blocks.first() == Some(graph[node].get_block())
+                || callother_return_sites.contains(&blk.tid)
             {
                 computation.set_node_value(node, NodeValue::Value(HashMap::new()));
             }
